@@ -40,12 +40,36 @@ def verify_anchors(prog: Program) -> List[str]:
         raise AnalysisError("conversions._find_path_recursive no longer walks _ratios[start] (anchor F1 of R09.7 moved)")
     out.append("F1: _find_path_recursive iterates _ratios[start]")
     rf = prog.func("conversions._replace_factors")
-    src = ast.unparse(rf.node).replace(" ", "")
-    skip = any(isinstance(n, ast.If) and "exponents" in ast.unparse(n.test) and "<=1" in ast.unparse(n.test).replace(" ", "")
-               and n.body and isinstance(n.body[-1], ast.Continue) for n in ast.walk(rf.node))
-    direct = "_ratios[unit].keys()" in src or "_ratios[unit]" in src
-    bigger = "len(alternative.factors)>len(unit.factors)" in src and "sum(alternative.factors.values())>sum(" in src
-    if not (skip and direct and bigger):
+    # the function and the helpers it is split into (same module; the path search itself excluded)
+    closure: List[ast.AST] = []
+    seen: Set[str] = set()
+    todo = [rf.qual]
+    while todo:
+        q = todo.pop()
+        if q in seen or q not in prog.functions:
+            continue
+        seen.add(q)
+        closure.append(prog.functions[q].node)
+        for n in ast.walk(prog.functions[q].node):
+            if isinstance(n, ast.Call) and isinstance(n.func, ast.Name):
+                cq = f"conversions.{n.func.id}"
+                if cq in prog.functions and n.func.id not in ("_clean_pop", "_clean_remove"):
+                    todo.append(cq)
+    nodes = [n for fn in closure for n in ast.walk(fn)]
+    transitive = any(q.split(".")[-1].startswith("_find_path") or q.endswith("_plan_conversion") for q in seen)
+
+    def norm(x: ast.AST) -> str:
+        return ast.unparse(x).replace(" ", "")
+    # the total-exponent test (inline, in a comprehension filter or in a helper predicate)
+    skip = any(isinstance(n, ast.Compare) and "exponents" in norm(n) and "abs(" in norm(n)
+               and any(norm(n).endswith(t) for t in ("<=1", "<2", ">1", ">=2")) for n in nodes)
+    ratio_uses = [n for n in nodes if isinstance(n, ast.Subscript) and isinstance(n.value, ast.Name) and n.value.id == "_ratios"]
+    direct = bool(ratio_uses) and all(isinstance(n.slice, ast.Name) for n in ratio_uses)
+    cmps = [norm(n) for n in nodes if isinstance(n, ast.Compare)]
+    import re as _re
+    bigger = any(_re.fullmatch(r"len\((\w+)\.factors\)>len\((\w+)\.factors\)", c) for c in cmps) and \
+        any(_re.fullmatch(r"sum\((\w+)\.factors\.values\(\)\)>sum\((\w+)\.factors\.values\(\)\)", c) for c in cmps)
+    if not (skip and direct and bigger) or transitive:
         raise AnalysisError("conversions._replace_factors no longer decomposes only through the unit's own, larger equivalences of a "
                             "derived dimension (anchor F2 of R09.7 moved)")
     out.append("F2: _replace_factors uses _ratios[unit], larger alternatives only, skips total exponent <= 1")
